@@ -259,7 +259,9 @@ func mask(tree any, steps []step) any {
 	}
 }
 
-func isCatchCode(code string) bool { return strings.HasPrefix(code, "cc_") || strings.HasPrefix(code, "cr_") }
+func isCatchCode(code string) bool {
+	return strings.HasPrefix(code, "cc_") || strings.HasPrefix(code, "cr_")
+}
 
 func (c05) RunCase(c *core.Ctx) {
 	S := c05Schema(c.R)
